@@ -1688,7 +1688,10 @@ def create_valves(net, junctions, elements, et, inner_diameter_mm, opened=True, 
             el_arr = np.array(elements)
             mask = et_arr == typ
             mask_all |= mask
-            _check_multiple_elements(net, el_arr[mask], *matcher[typ])
+            if np.any(mask):
+                # only check tables that are actually referenced (a net without pipe table can
+                # still get junction-junction valves)
+                _check_multiple_elements(net, el_arr[mask], *matcher[typ])
         not_def = ~mask_all
         if np.any(not_def):
             raise UserWarning('et type %s is not implemented' % et_arr[not_def])
@@ -1700,6 +1703,8 @@ def create_valves(net, junctions, elements, et, inner_diameter_mm, opened=True, 
     et_arr = np.array([et] * len(junctions) if isinstance(et, str) else et)
     # Ensure switches are connected correctly.
     for typ, table, joining_busses in [("pi", "pipe", ["from_junction", "to_junction"])]:
+        if not np.any(et_arr == typ):
+            continue
         el = el_arr[et_arr == typ]
         bs = net[table].loc[el, joining_busses].values
         not_connected_mask = ~np.isin(b_arr[et_arr == typ], bs)
